@@ -10,6 +10,10 @@ CXX = "clang++"
 # the stack happened to contain (mostly zeros in a harness), so a read of one changes the outcome
 # reproducibly.  Code that reads no uninitialised memory is unaffected.
 BASE = "-std=gnu++17 -g -O1 -fno-omit-frame-pointer -Wno-deprecated-declarations -ftrivial-auto-var-init=pattern"
+# VH_COVERAGE=1 (tools/coverage.sh, its own build directory): source-based coverage instrumentation of everything
+# clang compiles, so that the library lines the generated cases never reach can be listed per anchored file.
+COV = " -fprofile-instr-generate -fcoverage-mapping" if os.environ.get("VH_COVERAGE") else ""
+BASE += COV
 SAN = {
     "asan": "-fsanitize=address,undefined -fno-sanitize-recover=undefined",
     "tsan": "-fsanitize=thread",
@@ -48,6 +52,9 @@ def shadow_dest(rel):
 
 
 def generate(verif, repo, bdir):
+    if COV:  # the g++-built variants do not know the clang coverage flags: built with clang in a coverage build
+        for b_ in props.BINARIES.values():
+            b_.pop("cxx", None)
     L = []
     w = L.append
     w("ninja_required_version = 1.7")
@@ -196,7 +203,7 @@ def generate(verif, repo, bdir):
         libs.append("-lpthread")
         w("build bin/%s: link %s%s" % (name, " ".join(esc(o) for o in objs),
                                       (" | " + " ".join(implicit)) if implicit else ""))
-        w("  ldflags = %s" % LINKSAN[san])
+        w("  ldflags = %s%s" % (LINKSAN[san], COV))
         w("  libs = %s" % " ".join(libs))
         if cxx_line:
             w(cxx_line)
